@@ -1,7 +1,9 @@
 package props
 
 import (
+	"log"
 	"os"
+	"strings"
 	"sync"
 	"time"
 
@@ -45,3 +47,16 @@ func withGateway(gw *protocol.Gateway, f func() *Violation) *Violation {
 }
 
 func getenv(k string) string { return os.Getenv(k) }
+
+type lockedWriter struct {
+	mu sync.Mutex
+	b  strings.Builder
+}
+
+func (l *lockedWriter) Write(p []byte) (int, error) {
+	l.mu.Lock()
+	defer l.mu.Unlock()
+	return l.b.Write(p)
+}
+func (l *lockedWriter) String() string      { l.mu.Lock(); defer l.mu.Unlock(); return l.b.String() }
+func newLogger(w *lockedWriter) *log.Logger { return log.New(w, "", 0) }
